@@ -619,6 +619,21 @@ End Run.
 
 End DecompP.
 
+(* Circuit.decomposition pre-processes the request ONCE: whatever the number of abandoned tries, the returned list is
+   Circuit.inverse of the list of one elimination run on preprocess(U) — never on U itself, never on a matrix left by
+   an earlier try *)
+Theorem decomposition_runs_on_preprocessed (R : cring) m small skip iib perm_on Os solve hinv_b vinv_b
+  wp v h tries (U : mat R) s c s' :
+  decomposition m small skip iib perm_on Os solve hinv_b vinv_b wp v h tries U s = (Some c, s') ->
+  exists l u s0 s1,
+    triangle m small skip iib perm_on Os solve wp (preprocess m v h U) s0 = (Some (l, u), s1) /\
+    c = (if v || h then cinverse m hinv_b vinv_b v h l else l).
+Proof. unfold decomposition.
+  destruct (retry m small skip iib perm_on Os solve tries wp (preprocess m v h U) s) as [[[l u]|] s1] eqn:E;
+    intros H; inversion H; subst.
+  destruct (retry_some R m small skip iib perm_on Os solve tries wp _ _ _ _ E) as [s0 [s2 E2]].
+  exists l, u, s0, s2. split; auto. Qed.
+
 (* Circuit.decomposition answers None only when max_try = 0 or the solver refused some cell: the completeness
    sentence of the property is exactly a statement about the numerical solver *)
 Theorem decomposition_none_only_from_solver (R : cring) m small skip iib perm_on Os solve hinv_b vinv_b
